@@ -256,6 +256,14 @@ def lockSites : List String :=
    "get_fg_bg_colors: load+enter load+enter", "get_terminal_name_version: load+enter load+enter",
    "lock_tty_wrapper: load+enter load+enter"]
 
+/-- source order of the module-level statements of utils.py that decide what `_rlock_type` is:
+    `_rlock_type = type(_tty_lock)` is evaluated while `_tty_lock` still is the module's own fresh
+    `threading.RLock` — BEFORE the import-time adoption of the parent's lock. This is what makes
+    `isinstance(_tty_lock, _rlock_type)` mean `Lk.isThreadLock` in every process, including a child
+    that adopted the process lock while importing the module (`fk` with `cur child = M _`). -/
+def initOrder : List String :=
+  ["_tty_lock = RLock()", "_rlock_type = type(_tty_lock)", "adopt current_process()"]
+
 /-- functions that must be synchronized through `lock_tty` (anchors of the property) -/
 def requiredUsers : List String :=
   ["term_image.utils.query_terminal", "term_image.utils.read_tty", "term_image.utils.write_tty",
